@@ -491,7 +491,12 @@ def distribute_batch_calls(
             common_args, task.conf.disable_cache_args
         )
         task.logger.debug(f"Pre-serialized {len(pre_serialized_args)} common arguments")
-        other_args = param_list  # type: ignore
+        # Bind every call against the signature (defaults applied) so the call identity
+        # is the same as for the plain spelling; the common arguments stay pre-serialized.
+        other_args = [
+            {k: v for k, v in args.kwargs.items() if k not in common_args}
+            for args in prepare_arguments(task, param_list, common_args)
+        ]
     else:
         other_args = [a.kwargs for a in prepare_arguments(task, param_list)]
 
